@@ -1,6 +1,7 @@
 SPECIFICATION TSpec
 CONSTANT P = 0
 CONSTANT MaxLen = 100
+INVARIANT Inv_Total
 INVARIANT Inv_Base
 INVARIANT Inv_Pool
 CHECK_DEADLOCK FALSE
